@@ -194,7 +194,7 @@ func emitMS(c *hlib.Ctx, s model2d.Solid, delta float64, big bool, c2f []float64
 	opBase := fmt.Sprintf("c12 ms %d %d %s family=%s delta=%v", len(xs), len(ys), bitStr(l.bits), family, delta)
 	for _, st := range msSettings(c, s, l, delta, big, c2f) {
 		st := st
-		c.EmitSite(opBase+" "+st.tag, guarded(func() string { return l.meshHash(st.run()) }), "corr:c12 ms/"+fnOf(st.tag))
+		emitCase(c, opBase+" "+st.tag, "corr:c12 ms/"+fnOf(st.tag), func() string { return l.meshHash(st.run()) })
 		c.Stat("c12.ms.cases", 1)
 	}
 }
